@@ -62,8 +62,8 @@ TEXTS = {
   "level": "Lean theorem over the search model for every game, position with a legal move, depth >= 1, initial cache and killers: with the cache neutralised and no limits the root score of the "
            "fail-hard PVS search and the value of the chosen move equal the plain minimax value of the engine's look-ahead game (check extension, capture quiescence with stand-pat, draw cuts, "
            "mate distance, ply cap). Tied to the code: search model trace-exact; root score and chosen-move value compared with an independent reference minimax on generated positions with and without history.",
-  "note": "Trusted: Lean kernel, search model, the cache-off hook, harness/driver; the executable reference uses textbook alpha-beta pruning (the theorem is about plain negamax; that the pruned reference "
-          "equals it is standard and not proved here). EvalBoundedFrom hypothesis.",
+  "note": "Trusted: Lean kernel, search model, the cache-off hook, harness/driver; the executable reference uses textbook alpha-beta pruning and is PROVED equal to plain negamax (ref_root_value_eq). "
+          "EvalBoundedFrom hypothesis (discharged for chess from every well-formed position with bounded promote-everything material: chess_eval_bounded).",
   "technique": "Lean 4 proof (Good-invariant for fail-hard windows, permutation invariance of ordering, induction on fuel) + differential correspondence against a reference minimax",
  },
  "C16": {
